@@ -388,6 +388,26 @@ def rule_results_not_shared(check, rule, al=None):
                     for s in subterms(init):
                         if s[0] == 'L' and s in it3.obj_init:
                             deep = True
+        # the nested '+depths' map must be rebuilt on every path
+        nested_ok = True
+        bad_node = None
+        for p in ps3:
+            if p.status != 'return':
+                continue
+            sets = [e for e in p.effects if e.kind == 'mut' and e.target == p.value and e.op == 'setitem' and e.args[0] == K('+depths')]
+            if not sets:
+                continue
+            pr = al.prov(cs, sets[-1].args[1], it3)
+            if pr:
+                nested_ok = False
+                bad_node = sets[-1].node
+        key = '%s|depths-private' % cs.key
+        if nested_ok:
+            check.holds(rule, site_of(cs, cs.node), "the nested '+depths' map is rebuilt on every path", key=key)
+        else:
+            check.violation(rule, site_of(cs, bad_node), "on some path copy_sources reuses the input's '+depths' map: results of mask()/merge() of a "
+                            "single signature then share it with the input", key=key,
+                            witness="mask(sig, 1).sources['+depths'] is sig.sources['+depths']")
         key = '%s|deep' % cs.key
         if deep:
             check.holds(rule, site_of(cs, cs.node), 'every per-parameter list is rebuilt', key=key)
